@@ -134,6 +134,89 @@ def privileged_subclasses(ctx, n):
                      family='privileged-subclasses')
 
 
+def waiting_bodies(ctx, n):
+    """the body is suspended in one of the library's waits - a composite condition that is still false, a flag, a date, a
+    lock held by a sibling, an empty queue, a borrow that has to wait - when a child fails: whatever the body waits in,
+    the failure aborts it in that time step, the block raises Concurrent with exactly that failure at that time, and the
+    body does not go on (round 13: a wait that swallowed the scope's own cancellation and simply waited again)"""
+    import usim
+    from usim import time, Scope, Flag, Lock, Queue, Resources, Concurrent
+    rng = ctx.rng
+    kinds = ['a&b', 'a|b', 'date&a', 'moment|a', 'flag', '~a&b', 'lock', 'queue', 'borrow', '(a&b)|c']
+    for i in range(n):
+        kind = kinds[i % len(kinds)]
+        t_fail, t_set = rng.choice([0, 1, 2]), rng.choice([3, 4])
+        case = {'waiting_body': kind, 'fail_at': t_fail, 'released_at': t_set}
+        log = []
+        err = KeyError('child')
+
+        async def failing():
+            if t_fail:
+                await (time + t_fail)
+            raise err
+
+        async def main():
+            a, b, c = Flag(), Flag(), Flag()
+            lock, queue, res = Lock(), Queue(), Resources(cores=1)
+
+            async def releaser():
+                if kind == 'lock':
+                    async with lock:
+                        await (time + t_set)
+                elif kind == 'borrow':
+                    async with res.borrow(cores=1):
+                        await (time + t_set)
+                else:
+                    await (time + t_set)
+                    await a.set()
+                    await b.set()
+                    await c.set()
+                    await queue.put(1)
+            try:
+                async with Scope() as scope:
+                    scope.do(releaser())
+                    await usim.instant                     # the releaser takes the lock / the resources first
+                    scope.do(failing())
+                    if kind == 'a&b':
+                        await (a & b)
+                    elif kind == 'a|b':
+                        await (a | b)
+                    elif kind == 'date&a':
+                        await ((time >= 1) & a)
+                    elif kind == 'moment|a':
+                        await ((time == 9) | a)
+                    elif kind == 'flag':
+                        await a
+                    elif kind == '~a&b':
+                        await a.set()
+                        await (~a & b)
+                    elif kind == 'lock':
+                        async with lock:
+                            pass
+                    elif kind == 'queue':
+                        await queue
+                    elif kind == 'borrow':
+                        async with res.borrow(cores=1):
+                            pass
+                    else:
+                        await ((a & b) | c)
+                    log.append(('body went on', time.now))
+                    await (time + 5)
+                log.append(('left normally', time.now))
+            except Concurrent as e:
+                log.append(('concurrent', time.now, [x is err for x in e.children]))
+        try:
+            watch.run(main())
+        except BaseException as e:   # noqa
+            ctx.fail(case, 'raised %r after %r' % (e, log), family='waiting-bodies')
+            continue
+        ctx.count(dict(case, family='waiting-bodies'), nontrivial=True, validated=False)
+        ctx.bump('family:waiting-bodies')
+        want = [('concurrent', t_fail, [True])]
+        if log != want:
+            ctx.fail(case, 'observed %r, expected %r' % (log, want), family='waiting-bodies')
+
+
 def nested_failures_flat_view(ctx, n):
     """directed family (direct API): scopes nested two to four deep, several children of the innermost one failing in one time
     step: the outermost block raises Concurrent of Concurrent ...; its flat view (`.flattened()`) carries exactly the leaf failures,
@@ -281,6 +364,7 @@ def run(ctx):
     base_exception_children(ctx)
     privileged_subclasses(ctx, ctx.n(30, 300))
     nested_failures_flat_view(ctx, ctx.n(30, 400))
+    waiting_bodies(ctx, ctx.n(30, 300))
     propagate_correspondence(ctx, ctx.n(300, 3000))
     machine_prop.run(ctx, FAMILIES, MONITORS + ['C05s'], extra_scenarios=double_failures(ctx.rng, ctx.n(40, 800)))
     # scopes around borrowed resources (acquiring and releasing suspend, also while a scope is being interrupted):
